@@ -127,7 +127,7 @@ pub enum Token {
 
 impl Token {
     pub fn width(&self) -> usize {
-        self.to_string().len()
+        self.to_string().chars().count()
     }
 
     /// Position just after this token, given that it starts at `start`.
